@@ -70,6 +70,7 @@ type xop struct {
 	sid      uint64
 	okS, okI bool
 	a1, a2   *int64
+	lm       uint64 // shard created on the store right after meta answered the index side of the refresh (0 = none)
 	outS     map[uint64]xout
 	outI     map[uint64]xout
 }
@@ -129,7 +130,11 @@ func (o *xop) line() string {
 	case "rollback":
 		return "x rollback"
 	case "run":
-		return fmt.Sprintf("x run %s %s %s %s %s %s", bit(o.okS), optI(o.a1), bit(o.okI), optI(o.a2), fmtXOut(o.outS), fmtXOut(o.outI))
+		lm := "-"
+		if o.lm != 0 {
+			lm = fmt.Sprint(o.lm)
+		}
+		return fmt.Sprintf("x run %s %s %s %s %s %s %s", bit(o.okS), optI(o.a1), bit(o.okI), optI(o.a2), fmtXOut(o.outS), fmtXOut(o.outI), lm)
 	}
 	return "x ?"
 }
@@ -369,6 +374,9 @@ func genX(r *hx.Rng) *xtrace {
 				d := alter()
 				o.a2 = &d
 			}
+			if r.Chance(12) {
+				o.lm = t.sh[r.Intn(len(t.sh))].sid
+			}
 			for _, s := range t.sh {
 				if r.Chance(12) {
 					o.outS[s.sid] = xout{!r.Chance(40), !r.Chance(50), !r.Chance(40)}
@@ -568,14 +576,18 @@ func (w *xworld) dump() string {
 // the service's two collaborators
 
 type xmeta struct {
-	w      *xworld
-	op     *xop
-	calls  *[]string
-	e      *xeng
-	refS   *int64 // policy duration when the shard side was answered
-	refI   *int64
-	listed  map[uint64]bool // index ids IndexDurationInfos listed in this run
-	listedS map[uint64]bool // shard ids DurationInfos listed in this run
+	w        *xworld
+	op       *xop
+	calls    *[]string
+	e        *xeng
+	refS     *int64 // policy duration when the shard side was answered
+	refI     *int64
+	listed   map[uint64]bool // index ids IndexDurationInfos listed in this run
+	listedS  map[uint64]bool // shard ids DurationInfos listed in this run
+	lmMade   bool            // … and made a new shard object
+	lmDone   bool            // the mid-run shard creation of this run has happened
+	lmDur    int64           // the policy duration at that moment (what a builder created then holds)
+	reloaded func(sid uint64)
 }
 
 func (m *xmeta) GetShardDurationInfo(index uint64) (*meta.ShardDurationResponse, error) {
@@ -633,6 +645,24 @@ func (m *xmeta) GetIndexDurationInfo(index uint64) (*meta.IndexDurationResponse,
 		m.w.rpi.Duration = time.Duration(*m.op.a2)
 	}
 	return out, nil
+}
+
+// loadMid: a write reaches the store while the retention check is between its refresh and its
+// expiry tests: the shard (and its index builder, if the partition has none) is created now.
+func (m *xmeta) loadMid() {
+	if m.op.lm == 0 || m.lmDone {
+		return
+	}
+	m.lmDone = true
+	m.lmDur = int64(m.w.rpi.Duration)
+	if r, err := m.w.load(m.op.lm); err != nil {
+		*m.calls = append(*m.calls, "L!"+err.Error())
+	} else if r == "ok" {
+		m.lmMade = true
+		if m.reloaded != nil {
+			m.reloaded(m.op.lm)
+		}
+	}
 }
 
 func (m *xmeta) outS(sid uint64) xout {
@@ -721,6 +751,7 @@ type xeng struct {
 	repC       []uint64
 	posS, posI int
 	usersAtI   map[uint64][]uint64 // shard objects holding index iid when ExpiredIndexes ran
+	ixAtI      map[uint64]bool     // index builders the partition held when ExpiredIndexes ran
 	age        time.Duration
 }
 
@@ -754,6 +785,7 @@ func (e *xeng) ExpiredShards(nm *map[uint64]*meta.ShardDurationInfo) []*meta.Sha
 		nk = append(nk, k)
 	}
 	sort.Slice(nk, func(i, j int) bool { return nk[i] < nk[j] })
+	e.m.loadMid() // both sides of the refresh have been applied; the expiry tests follow
 	res := e.w.eng.ExpiredShards(nm)
 	e.age = time.Since(e.w.t0)
 	sort.SliceStable(res, func(i, j int) bool { return res[i].ShardID < res[j].ShardID })
@@ -784,6 +816,10 @@ func (e *xeng) ExpiredIndexes(nm *map[uint64]*meta.IndexDurationInfo) []*meta.In
 	for _, sid := range e.w.shardIDs() {
 		iid := e.w.shOf[sid].iid
 		e.usersAtI[iid] = append(e.usersAtI[iid], sid)
+	}
+	e.ixAtI = map[uint64]bool{}
+	for _, id := range e.w.indexIDs() {
+		e.ixAtI[id] = true
 	}
 	*e.calls = append(*e.calls, fmt.Sprintf("NI[%s] XI[%s]", joinU(nk), joinU(e.repI)))
 	return res
@@ -875,6 +911,7 @@ func playX(root string, t *xtrace) (out []emitted, st map[string]int, err error)
 	svc.Engine = xe
 	out = append(out, emitted{op: t.newLine(), ans: "ok | " + w.dump()})
 	closedS := map[uint64]bool{}
+	xm.reloaded = func(sid uint64) { delete(closedS, sid) }
 	offloading := false
 	expired := func(d, endRel int64) bool { return d != 0 && endRel+d < w.vnow }
 	for i := range t.ops {
@@ -895,6 +932,9 @@ func playX(root string, t *xtrace) (out []emitted, st map[string]int, err error)
 					ans = "err " + err.Error()
 				} else {
 					ans = r
+					if r == "ok" {
+						delete(closedS, o.sid) // a new shard object
+					}
 				}
 			case "offload":
 				if err := w.eng.PreOffload(1, dbName, 0); err != nil {
@@ -935,7 +975,9 @@ func playX(root string, t *xtrace) (out []emitted, st map[string]int, err error)
 				for _, id := range w.shardIDs() {
 					shBefore[id] = true
 				}
+				xm.lmDone, xm.lmMade = false, false
 				svc.VerifHandle()
+				xm.loadMid() // a run that stopped after a failed refresh: the write arrives all the same
 				if offloading {
 					st["x.run.while-offloading"]++
 					for id := range shBefore {
@@ -999,7 +1041,12 @@ func playX(root string, t *xtrace) (out []emitted, st map[string]int, err error)
 					if ixBefore[iid] && !ixAfter[iid] {
 						st["x.index-deleted"]++
 					}
+					// a builder created during this run (by the write that arrived after the refresh) holds the
+					// policy duration of that moment: a decision by that duration is a decision by the policy too
+					madeMidRun := o.lm != 0 && !ixBefore[iid] && w.shOf[o.lm] != nil && w.shOf[o.lm].iid == iid
 					switch {
+					case madeMidRun && expired(xm.lmDur, x.endRel):
+						st["x.index-reported.made-mid-run"]++
 					case refI == 0:
 						viol = append(viol, [2]string{"index-expired-under-unlimited", fmt.Sprintf("index %d (group %d, end %+d ns, clock %d) reported expired although the policy is unlimited (duration 0 handed out by this run's refresh); deleted from the store: %v; shard objects holding it: %v ;; history: %s", iid, x.igid, x.endRel, w.vnow, ixBefore[iid] && !ixAfter[iid], xe.usersAtI[iid], hist)})
 					case !expired(refI, x.endRel):
@@ -1007,11 +1054,25 @@ func playX(root string, t *xtrace) (out []emitted, st map[string]int, err error)
 					}
 					for _, sid := range xe.usersAtI[iid] {
 						s := w.shOf[sid]
+						if !xe.ixAtI[iid] {
+							// the partition holds no builder for this index (an earlier run deleted it): the
+							// report names the catalogue entry only, the shard objects hold a closed builder
+							st["x.index-reported.not-in-store"]++
+							break
+						}
 						if closedS[sid] {
 							continue // a closing shard has let go of its index builder
 						}
-						if !expired(refI, s.endRel) {
-							viol = append(viol, [2]string{"index-expired-under-live-shard", fmt.Sprintf("index %d reported expired while shard %d (end %+d ns, clock %d) that holds it is not expired under the policy duration %d ;; history: %s", iid, sid, s.endRel, w.vnow, refI, hist)})
+						if !xm.listedS[sid] {
+							st["x.index-reported.orphan-holder"]++
+							continue // an orphan shard object (see above): the refresh cannot reach it
+						}
+						// the shard loop of this run works with what the shard side of the refresh got
+						if xm.lmMade && sid == o.lm && expired(xm.lmDur, s.endRel) {
+							continue // a shard object made during this run holds the policy duration of that moment
+						}
+						if !expired(refS, s.endRel) {
+							viol = append(viol, [2]string{"index-expired-under-live-shard", fmt.Sprintf("index %d reported expired while shard %d (end %+d ns, clock %d) that holds it is not expired under the policy duration %d this run's refresh handed out ;; history: %s", iid, sid, s.endRel, w.vnow, refS, hist)})
 						}
 					}
 				}
@@ -1027,7 +1088,7 @@ func playX(root string, t *xtrace) (out []emitted, st map[string]int, err error)
 					}
 				}
 				// ---- a run without failures removes every expired listed index
-				fair := refreshed && o.a1 == nil && o.a2 == nil && len(o.outS) == 0 && len(o.outI) == 0
+				fair := refreshed && o.a1 == nil && o.a2 == nil && o.lm == 0 && len(o.outS) == 0 && len(o.outI) == 0
 				if fair {
 					st["x.fair-run"]++
 					for iid := range xm.listed {
@@ -1037,7 +1098,7 @@ func playX(root string, t *xtrace) (out []emitted, st map[string]int, err error)
 						}
 						waits := false
 						for _, sid := range xe.usersAtI[iid] {
-							if !closedS[sid] && !expired(refI, w.shOf[sid].endRel) {
+							if !closedS[sid] && xm.listedS[sid] && !expired(refS, w.shOf[sid].endRel) {
 								waits = true // a live shard still works with the index (shard group outlives the index group)
 							}
 						}
